@@ -135,7 +135,7 @@ func printSummary(hr *interp.HarnessResult, verbose bool) {
 	}
 	for _, v := range hr.Violations {
 		b, _ := json.Marshal(v.Model)
-		fmt.Printf("   VIOLATION[%s] %s site=%s detail=%s model=%s choices=%v\n", v.Kind, v.Label, v.Site, v.Detail, b, v.Choices)
+		fmt.Printf("   VIOLATION[%s] %s site=%s detail=%s model=%s choices=%v observed=%v\n", v.Kind, v.Label, v.Site, v.Detail, b, v.Choices, v.Observed)
 	}
 	if verbose {
 		for _, p := range hr.Paths {
